@@ -2,13 +2,15 @@
 from vlib import CaseT
 from wbprop import WigBedProp, byte_level_check
 import bbgen
+from props import C10 as c10
 
 
 class C04(WigBedProp):
     pid = "C04"
     rule = ("files written as in C02 with items_per_slot ∈ {1,2,3} and block_size ∈ {2,3} so that long-then-short layouts give "
             "blocks and index nodes whose largest end is not the last one; 6–10 queries per file on the boundary set with "
-            "s < e, plain / caching / fresh readers. Non-trivial = a file with a block whose largest end is not its last "
+            "s < e, plain / caching / fresh readers; and bigBeds from the independent encoder of C10 (either byte order, any index "
+            "layout and fan-out, permuted chromosome ids), judged against the encoded content. Non-trivial = a file with a block whose largest end is not its last "
             "entry's end")
 
     def cases(self, rng, tier):
@@ -27,13 +29,32 @@ class C04(WigBedProp):
             if "max_end_not_last" in tags:
                 tags.add("nt")
             out.append(CaseT(f"q{k}", "bed", [], lines, self.common_tags(o, names, data, tags)))
+        # bigBeds no bigtools writer produces: big-endian, any index layout / fan-out, permuted chromosome ids (the readers'
+        # byte-order arms and index decoders are reached only by such files)
+        for k in range(400 if tier == "thorough" else 70):
+            c = c10.foreign_case(rng.fork(f"foreign{k}"), f"f{k}", bed=True, readers=("plain", "cached", "fresh", "freshcached"))
+            if c is not None:
+                c.tags.add("foreign_file")
+                out.append(c)
         return out
 
     def nontrivial(self, case, il):
         return "nt" in case.tags
 
     def oracle(self, case, il):
+        if case.kind == "readbed":
+            return c10.PROP.oracle(case, il)
         return bbgen.basic_ok(il) or bbgen.oracle_bed_queries(case, il)
+
+    def compare(self, case, il, ml):
+        if case.kind == "readbed":
+            return c10.PROP.compare(case, il, ml)
+        return super().compare(case, il, ml)
+
+    def model_extra(self, case, il):
+        if case.kind == "readbed":
+            return []
+        return super().model_extra(case, il)
 
     def extra_checks(self, rep, tier, rng, workdir):
         byte_level_check(self, rep, workdir)
